@@ -38,6 +38,7 @@ Cyc = gram.Cyc
 def setup(ctx):
     from smartquery import SqParser
     ctx.P = SqParser()
+    ctx.PC = SqParser(parse_cache={})     # texts that agree up to a '#' inside a string, or up to layout, must not share a tree
     ctx.all_prods = set(gram.PROD_IDS)
 
 
@@ -83,9 +84,9 @@ def cases(ctx):
             yield ('mut2', tuple(gram.mutate(gram.mutate(types, rnd), rnd)), seed)
 
 
-def impl_parse(ctx, text):
+def impl_parse(ctx, text, cached=False):
     try:
-        t = ctx.P.parse(text)
+        t = (ctx.PC if cached else ctx.P).parse(text)
     except Exception as e:  # class/message are other properties' business
         return ('rej', type(e).__name__)
     return ('ok', treeconv.norm(treeconv.conv(t)))
@@ -116,7 +117,12 @@ def run_case(case, ctx):
     if r[0] == 'skip':
         ctx.count('skipped_reference_recursion')
         return
-    i = impl_parse(ctx, text)
+    cached = (not simple) and seed % 5 == 1
+    if cached:
+        ctx.count('cases_on_a_caching_parser')
+        if len(ctx.PC.parse_cache) > 3000:
+            ctx.PC.parse_cache.clear()
+    i = impl_parse(ctx, text, cached)
     ctx.count('impl_accepts' if i[0] == 'ok' else 'impl_rejects')
     if i[0] == 'rej' and i[1] != 'ParserError':
         ctx.count('impl_rejects_with_' + i[1])
@@ -137,6 +143,17 @@ def run_case(case, ctx):
             ctx.count('derivations_rejected_by_reference(nonassoc/ambiguity)')
     if ctx.counters['impl_accepts'] % 5000 == 1 and i[0] == 'ok':
         ctx.sample({'text': text, 'tree': str(i[1])[:300]})
+    if cached and 'STRING' in types and same(i, r):
+        # a sibling text that differs only INSIDE its string literals, parsed on the same caching parser: each must get its own tree
+        toks2, text2 = gram.render(types, Cyc(seed + len(types)), pools={'STRING': ['"#fff"', "'n#1'", '"s"']})
+        toks3, text3 = gram.render(types, Cyc(seed + len(types)), pools={'STRING': ['"#000"', "'n#2'", '"t"']})
+        for tk, tx in ((toks2, text2), (toks3, text3)):
+            i2, r2 = impl_parse(ctx, tx, True), ref_parse(tk)
+            ctx.count('sibling_texts_on_the_caching_parser')
+            if r2[0] != 'skip' and not same(i2, r2):
+                ctx.violation('a text parsed on a caching parser after a sibling text (same up to the contents of a string literal) gets the wrong tree', case,
+                              detail={'text': tx, 'impl': str(i2[1])[:400], 'ref': str(r2[1])[:400]})
+                return
     if same(i, r):
         return
     # disagreement: which single mechanism (if any) explains it?
